@@ -896,7 +896,7 @@ func (r *Run) replayVerdict(out string, cf cexFile) string {
 		return "NOT-REPRODUCED(desync)"
 	}
 	if cf.Kind == "panic" {
-		if strings.Contains(out, "VERIF-PANIC") || strings.Contains(out, "panic:") {
+		if strings.Contains(out, "VERIF-PANIC") || strings.Contains(out, "panic:") || strings.Contains(out, "stack overflow") {
 			return "REPRODUCED"
 		}
 		if strings.Contains(out, "VERIF-LOG unreachable-prestate") {
